@@ -16,7 +16,7 @@ AUDIT_FILES = ["PyroModel/Uri.lean", "PyroModel/Gen/C19.lean", "PyroProofs/UriLe
                "PyroProofs/UriParse.lean", "PyroProps/C19.lean"]
 THEOREMS = ["Pyro.C19.C19_parse_valid", "Pyro.C19.C19_reparse", "Pyro.C19.C19_roundtrip",
             "Pyro.C19.C19_fixpoint", "Pyro.C19.C19_text_injective", "Pyro.C19.C19_eq_hash",
-            "Pyro.C19.C19_unequal_locations", "Pyro.C19.C19_transport", "Pyro.C19.C19_proxy_history", "Pyro.C19.C19_int_roundtrip",
+            "Pyro.C19.C19_unequal_locations", "Pyro.C19.C19_transport", "Pyro.C19.C19_state_transport", "Pyro.C19.C19_proxy_history", "Pyro.C19.C19_int_roundtrip",
             "Pyro.C19.C19_roundtrip_guarded", "Pyro.C19.C19_unguarded_fails",
             "Pyro.C19.C19_roundtrip_unguarded_false", "Pyro.C19.C19_gen_facts"]
 SUITES = ["parse", "eq", "int", "proxy"]
@@ -255,11 +255,18 @@ def _facts():
             h = False
         hashable.append("(%s, %s)" % (_lean_text(s), "true" if h else "false"))
     proxy, is_text = _proxy_probes(URI, errors)
+    from Pyro5 import serializers as _sers
+    state_ok = True
+    for name in sorted(_sers.serializers):
+        ser = _sers.serializers[name]
+        for text in ("PYROMETA:b,a,tag@ns:9091", "PYROMETA:x", "PYRO:o@h:1", "PYRONAME:n@./u:s"):
+            if uri_arrival_difference(URI, name, ser, ser.loads(ser.dumps(URI(text))), URI(text)):
+                state_ok = False
     return {
         "path": os.path.relpath(core.__file__, common.REPO),
         "regex": rx.pattern, "flags": int(rx.flags), "v6": v6, "v6flags": v6flags, "nsport": nsport,
         "parse": parse, "eq": eqs, "hashable": hashable, "hashes_agree": hashes_agree,
-        "proxy": proxy, "proxy_text": is_text,
+        "proxy": proxy, "proxy_text": is_text, "state_ok": state_ok,
         # the two parse-time guards: present iff the behaviour is (both witnesses of each are refused)
         "guard_host": _raises(URI, errors, "PYRO:o@:55") and _raises(URI, errors, "PYRONAME:x@./u"),
         "guard_tags": _raises(URI, errors, "PYROMETA:,") and _raises(URI, errors, "PYROMETA:b,a@"),
@@ -298,6 +305,9 @@ def equalHashesAgree : Bool := {b(f['hashes_agree'])}
 def proxyProbes : List (Uri × List ProxyOp × List (Except Err Uri)) := {lst(f['proxy'])}
 /-- was Proxy.__getstate__()[0] always a str equal to str(proxy._pyroUri) at the time of the call ? -/
 def proxyStateIsText : Bool := {b(f['proxy_text'])}
+/-- does every installed serializer deliver a URI object (PYRO, PYRONAME, PYROMETA) as an equal URI — up to the list type
+    that a codec without a set type (probed on a plain set) gives the tags ? -/
+def uriStateTravels : Bool := {b(f['state_ok'])}
 end Pyro.Gen.C19
 """
 
@@ -663,32 +673,73 @@ def _transport_sig(u, kind):
     return cls if cls != "reparse-other" else "transport-" + kind
 
 
+_KEEPS_SETS = {}
+
+
+def codec_keeps_sets(name, ser):
+    """does this serializer deliver a plain set of strings as an equal set? (its own type mapping, C01) — probed"""
+    if name not in _KEEPS_SETS:
+        try:
+            r = ser.loads(ser.dumps({"a", "b"}))
+            _KEEPS_SETS[name] = type(r) in (set, frozenset) and r == {"a", "b"}
+        except Exception:
+            _KEEPS_SETS[name] = False
+    return _KEEPS_SETS[name]
+
+
+def uri_arrival_difference(URI, name, ser, v, u):
+    """a URI object travels as its state tuple (C19_state_transport): through a codec that keeps sets the receiver must
+    hold an EQUAL uri (==, same hashability, object of the same type, equal to a fresh parse of its own text);
+    through a codec without a set type (json, msgpack) the tags may arrive in the codec's list type, nothing else differs"""
+    if not isinstance(v, URI):
+        return "arrives as %r" % (v,)
+    if codec_keeps_sets(name, ser) or not isinstance(u.object, (set, frozenset)):
+        what = c19_proxy.uri_difference(URI, v, u)
+        if what:
+            return "arrives as a URI that " + what
+        try:
+            if URI(str(v)) != v:
+                return "arrives as a URI that is unequal to URI(str(it))"
+        except Exception as x:
+            return "arrives as a URI whose text form is refused (%s)" % x
+        return None
+    if not _designates(v, u):
+        return "arrives as %r" % (v.__getstate__(),)
+    return None
+
+
 def check_transport(ctx, URI, errors, s, u, case, ns):
-    """a URI, or a proxy holding it, through each serializer and through the name server"""
+    """a URI, or a proxy holding it, through each serializer (as value / call argument / keyword / nested) and through
+    the name server"""
     from Pyro5 import serializers, client
-    for name in sorted(serializers.serializers):
+    for k, name in enumerate(sorted(serializers.serializers)):
         ser = serializers.serializers[name]
         ctx.evaluations += 1
         for kind in ("uri", "proxy"):
             what = None
-            try:
-                data = ser.dumps(u if kind == "uri" else client.Proxy(URI(u)))
-            except Exception as x:      # the codec refuses the value (e.g. a lone surrogate): nothing is transported
-                ctx.count("transport:%s-refuses-%s" % (name, type(x).__name__))
-                continue
-            try:
-                v = ser.loads(data)
+            shapes = ["value", c19_proxy.SHAPES[1 + (ctx.evaluations + k) % 4]] if kind == "uri" else ["value"]
+            for shape in shapes:
+                try:
+                    v = c19_proxy.transport(ser, u if kind == "uri" else client.Proxy(URI(u)), shape)
+                except errors.PyroError as x:
+                    what = "cannot be rebuilt by the receiver (%s)" % x
+                    break
+                except Exception as x:  # the codec refuses the value (e.g. a lone surrogate): nothing is transported
+                    ctx.count("transport:%s-refuses-%s" % (name, type(x).__name__))
+                    continue
                 if kind == "proxy":
                     # a proxy carries the uri as text: the receiver must hold an EQUAL uri of the same shape
                     what = c19_proxy.uri_difference(URI, v._pyroUri, u)
-                elif not _designates(v, u):
-                    what = "arrives as %r" % (getattr(v, "__getstate__", lambda: v)(),)
-            except errors.PyroError as x:
-                what = "cannot be rebuilt by the receiver (%s)" % x
+                elif shape != "value" and not isinstance(v, URI):
+                    ctx.count("transport:%s/%s-uri-not-rebuilt" % (name, shape))
+                else:
+                    what = uri_arrival_difference(URI, name, ser, v, u)
+                if what:
+                    break
             if what:
                 c = dict(case)
                 c["via"] = "%s/%s" % (name, kind)
-                ctx.fail(_transport_sig(u, kind), "URI(%r) = %r sent as %s through %s %s" % (s, u.__getstate__(), kind, name, what), c)
+                ctx.fail(_transport_sig(u, kind), "URI(%r) = %r sent as %s (%s) through %s %s" % (s, u.__getstate__(), kind, shape, name, what), c)
                 return
     ctx.evaluations += 1
     for how, val in (("uri", u), ("text", s)):
